@@ -139,10 +139,14 @@ def run_case(case: dict) -> Result:
         if pinned and a.family == 'claim' and str(a.prop).startswith('unclaim'):
             a.run()   # only in the committed trigger of the open finding about edits next to unowned comments
             continue
-        if not a.syntax_ok or (a.family == 'claim' and str(a.prop).startswith('unclaim')):
-            # unclaiming leaves unowned comments in the store; what later insertions do around them is outside the statement
+        if not a.syntax_ok:
             classes.add('skipped-not-syntax-preserving')
             continue
+        if a.family not in ('claim', 'read') and not pinned and any(type(t).__name__ == 'BlockComment' and not t.claimed for t in O.store_tokens(root.token_store)):
+            # an edit while some comment is unowned: what insertions and removals do around such a comment is outside the statement
+            # (open findings); attribution calls themselves go on - a released comment is usually claimed again by the next one
+            classes.add('excluded-unowned-comment-at-edit')
+            break
         neighbours = False
         if a.structural and a.P is not None and isinstance(a.P, base.RawTreeModel):
             neighbours = len([c for c in O.raw_children(a.P) if not isinstance(c, O.ZERO_WIDTH)]) >= 2
@@ -191,8 +195,52 @@ def _build(tier: str):
     return build
 
 
+def _build_pingpong_then_edit(tier: str):
+    """Manual re-attribution walks (comments handed back and forth between neighbouring owners, every comment owned again at the end or the
+    case stops), then list edits on the models involved: what the claims did to the zero-width placeholders shows in the next insertion."""
+    from vf.props import c04
+    inner = c04._build_pingpong(tier)
+
+    def build(rnd: Any) -> dict:
+        case = inner(rnd)
+        case.pop('lf', None)
+        case['claim'] = True
+        g = L.G(rnd, L.Cfg())
+        try:
+            root = common.parse_file(L.text_of(case['dirs']))
+            for op in case['ops']:
+                try:
+                    OPS.resolve(root, op).run()
+                except Exception:  # noqa: BLE001
+                    pass
+            # empty (or shorten) a list next to the comments that were handed around, then add to it: the new item is placed relative
+            # to the list's placeholder
+            cands = [x for x in OPS.candidates(root, {'clist', 'fview'}) if x[2] in ('Transaction', 'Posting', 'File', 'Open', 'Close', 'Note') and len(getattr(x[0], x[1].name))]
+            txn = [x for x in cands if x[2] in ('Transaction', 'Posting')]
+            if txn and g.p(0.7):
+                cands = txn
+            if cands:
+                m, p, cname, mi = cands[g.n(0, len(cands) - 1)]
+                for shape in (g.pick(['pop', 'clear', 'pop_last', 'del']), 'append', g.pick(['append', 'insert'])):
+                    op = OPS.gen_for(g, root, m, p, cname, mi, shape=shape)
+                    if op is None:
+                        continue
+                    if shape in ('pop', 'del'):
+                        op['i'] = 0
+                    case['ops'].append(op)
+                    try:
+                        OPS.resolve(root, op).run()
+                    except Exception:  # noqa: BLE001
+                        break
+        except Exception:  # noqa: BLE001
+            pass
+        return case
+    return build
+
+
 def jobs(tier: str) -> list[Job]:
     return [Job('programs', 'hyp', lambda: _build(tier), 2500 if tier == 'quick' else 100000),
+            Job('claim-pingpong-then-edit', 'hyp', lambda: _build_pingpong_then_edit(tier), 2500 if tier == 'quick' else 60000),
             Job('list-sweep', 'enum', sweeps.list_sweep, exhaustive=True),
             Job('slot-sweep', 'enum', sweeps.slot_sweep, exhaustive=True),
             Job('insert-then-edit', 'enum', sweeps.insert_then_edit, exhaustive=True)]
